@@ -7,7 +7,7 @@
     a page the dump contains, [None] for a page it does not (excluded, or not
     RAM).  A layout fixes everything the format leaves to the writer. *)
 From Coq Require Import NArith List Bool.
-From KdV Require Import Fmt.Codec.
+From KdV Require Import Fmt.Codec Fmt.BitmapSpec.
 Import ListNotations.
 Local Open Scope N_scope.
 
@@ -125,16 +125,6 @@ Definition sub_hdr_flds (l : dd_layout) : list fld :=
 
 Definition enc_sub_hdr (l : dd_layout) : bytes := enc_flds (dl_be l) (sub_hdr_flds l).
 
-(** page bitmap, LSB 0 numbering: bit [pfn mod 8] of byte [pfn / 8] *)
-Definition byte_of_bits (l : list bool) : N :=
-  fold_right (fun (b : bool) acc => (if b then 1 else 0) + 2 * acc) 0 l.
-
-Fixpoint bits_to_bytes (n : nat) (bits : list bool) : bytes :=
-  match n with
-  | O => []
-  | S k => byte_of_bits (firstn 8 bits) :: bits_to_bytes k (skipn 8 bits)
-  end.
-
 Fixpoint orb_lists (a b : list bool) : list bool :=
   match a, b with
   | [], _ => b
@@ -154,15 +144,17 @@ Fixpoint window (start_pfn end_pfn pfn : N) (pages : list (option dd_page))
         :: window start_pfn end_pfn (pfn + 1) t
   end.
 
-(** struct page_desc for every stored page, in PFN order; [off] is the file
-    offset of the next page's data *)
+(** struct page_desc *)
+Definition enc_desc (be : bool) (off : N) (p : dd_page) : bytes :=
+  enc_flds be [F64 off; F32 (len (dp_payload p)); F32 (dp_flags p); F64 0].
+
+(** ... for every stored page, in PFN order; [off] is the file offset of the
+    next page's data *)
 Fixpoint enc_descs (be : bool) (pages : list (option dd_page)) (off : N) : bytes :=
   match pages with
   | [] => []
   | None :: t => enc_descs be t off
-  | Some p :: t =>
-      put64 be off ++ put32 be (len (dp_payload p)) ++ put32 be (dp_flags p) ++ put64 be 0
-      ++ enc_descs be t (off + len (dp_payload p))
+  | Some p :: t => enc_desc be off p ++ enc_descs be t (off + len (dp_payload p))
   end.
 
 Fixpoint enc_data (pages : list (option dd_page)) : bytes :=
@@ -188,8 +180,8 @@ Definition encode_dd (l : dd_layout) (pages : list (option dd_page)) : bytes :=
   let pgsz := dl_page_size l in
   let bmbytes := N.to_nat (dl_bmp_blocks l * pgsz) in
   let bits := map is_some pages in
-  let bm2 := bits_to_bytes bmbytes bits in
-  let bm1 := bits_to_bytes bmbytes (orb_lists bits (dl_mem_extra l)) in
+  let bm2 := bits_to_bytes false bmbytes bits in
+  let bm1 := bits_to_bytes false bmbytes (orb_lists bits (dl_mem_extra l)) in
   let own := window (win_start l) (win_end l) 0 pages in
   let descoff := (1 + dl_sub_blocks l + bitmap_blocks l) * pgsz in
   let data_start := descoff + 24 * count_some own + dl_data_gap l in
@@ -250,5 +242,6 @@ Record dd_wf (l : dd_layout) (img : image) : Prop := {
      of VMCOREINFO: the padded layout needs one *)
   wf_pad : dl_64 l = false -> dl_pad l = true -> 3 <= dl_version l ->
            dl_vmcoreinfo l <> [];
-  wf_small : dl_status l < 2^32 /\ dl_phys_base l < 2^32 /\ dl_dump_level l < 2^32
+  wf_small : dl_status l < 2^32 /\ dl_phys_base l < 2^32 /\ dl_dump_level l < 2^32;
+  wf_blobs : len (dl_vmcoreinfo l) < 2^32 /\ len (dl_notes l) < 2^32 /\ len (dl_eraseinfo l) < 2^32
 }.
